@@ -523,8 +523,10 @@ func (s *UtxoStore) GetAddresses(tx mwdb.ReadTransaction, walletId string) ([]*A
 func (s *UtxoStore) insertUnminedInputs(tx mwdb.DBTransaction, rec *TxRecord) error {
 	nsUnminedInputs := tx.FetchBucket(s.bucketMeta.nsUnminedInputs)
 
-	for _, rel := range rec.RelevantTxIn {
-		prevOut := &rec.MsgTx.TxIn[rel.Index].PreviousOutPoint
+	// every input, not only the wallet's own coins: a confirmed transaction
+	// conflicts with this one through any of them (Rollback records them all, too)
+	for _, txIn := range rec.MsgTx.TxIn {
+		prevOut := &txIn.PreviousOutPoint
 		k := canonicalOutPoint(&prevOut.Hash, prevOut.Index)
 		err := putRawUnminedInput(nsUnminedInputs, k, rec.Hash[:])
 		if err != nil {
